@@ -146,8 +146,12 @@ Record cfg := {
   c_fp_policy_first : bool;   (* cip14.py blake2b(policy_id + asset_name) (true) / the other order (false)     *)
   c_addr_types : list N;      (* address.py AddressType SCRIPT_KEY, SCRIPT_SCRIPT, SCRIPT_POINTER, SCRIPT_NONE *)
   c_nets : list N;            (* network.py Network TESTNET, MAINNET                                           *)
-  c_aux_falsy_when_empty : bool  (* AuxiliaryData defines __len__/__bool__ (it does not): matters for
+  c_aux_falsy_when_empty : bool; (* AuxiliaryData defines __len__/__bool__ (it does not): matters for
                                     `self.auxiliary_data.hash() if self.auxiliary_data else None`              *)
+  c_memo_body_id : bool;      (* transaction.py TransactionBody.id is a @cached_property (true) / a plain @property
+                                 (false): a memoised accessor keeps answering with the value of its FIRST evaluation
+                                 on that object (IdsSeq.v)                                                        *)
+  c_memo_tx_id : bool         (* the same for Transaction.id                                                    *)
 }.
 
 Definition spec_cfg : cfg := {|
@@ -158,7 +162,8 @@ Definition spec_cfg : cfg := {|
   c_ntypes := [0; 1; 2; 3; 4; 5];
   c_fp_size := 20; c_fp_hrp := "asset"; c_fp_policy_first := true;
   c_addr_types := [1; 3; 5; 7]; c_nets := [0; 1];
-  c_aux_falsy_when_empty := false |}.
+  c_aux_falsy_when_empty := false;
+  c_memo_body_id := false; c_memo_tx_id := false |}.
 
 (* ---- the generic array serializer on the objects at hand ----
    ArrayCBORSerializable.to_shallow_primitive returns the dataclass field values in declaration order
